@@ -76,6 +76,7 @@ def persistent_entropy(
     # Step 2: Persistent entropy computation.
     ps = []
     for dgm in dgms:
+        dgm = np.asarray(dgm, dtype=float)
         l = dgm[:, 1] - dgm[:, 0]
         if all(l > 0):
             L = np.sum(l)
